@@ -166,6 +166,7 @@ class SLE(Equilibrium, phases='ls'):
         nonzero = frozenset(mol.nonzero_keys())
         if self._nonzero == nonzero:
             index = self._index
+            self._chemical = None # Not a pure solute (an earlier call may have been)
         else:
             chemicals = self.chemicals
             # Set up indices for both equilibrium and non-equilibrium species
@@ -175,6 +176,7 @@ class SLE(Equilibrium, phases='ls'):
                 self._chemical = chemicals.tuple[solute_index]
             else:
                 # Set equilibrium objects
+                self._chemical = None
                 eq_chems = chemicals.tuple
                 eq_chems = [eq_chems[i] for i in index]
                 self._nonzero = nonzero
